@@ -162,3 +162,23 @@ pub fn replay_seq(_sc: &Value) -> Value {
     }
     json!({"violations": viol, "log": log})
 }
+
+/// The holder as `Default::default()` builds it (the other public constructor): same lifecycle as `new()`.
+pub fn replay_default_seq(_sc: &Value) -> Value {
+    let h: cadence_macros::SingletonHolder<String> = Default::default();
+    let mut viol: Vec<Value> = vec![];
+    let before = (h.is_set(), h.get().map(|a| (*a).clone()));
+    if before.0 || before.1.is_some() {
+        for clause in ["read-after-init", "premature-set"] {
+            viol.push(json!({"prop": "C18", "clause": clause, "detail": format!("SingletonHolder::default(): before any set is_set() = {} and get() = {:?}", before.0, before.1)}));
+        }
+    }
+    h.set("a".to_string());
+    let first = (h.is_set(), h.get().map(|a| (*a).clone()));
+    h.set("b".to_string());
+    let second = (h.is_set(), h.get().map(|a| (*a).clone()));
+    if first != (true, Some("a".to_string())) || second != (true, Some("a".to_string())) {
+        viol.push(json!({"prop": "C18", "clause": "stays-set", "detail": format!("SingletonHolder::default(): after set(a): {:?}; after set(b): {:?}", first, second)}));
+    }
+    json!({"violations": viol, "log": format!("before {:?} first {:?} second {:?}", before, first, second)})
+}
